@@ -82,6 +82,7 @@ def check_roundtrip(run, bp, g, cards):
         has_av = any(s[0] == "ARRAY_VALUE" and len(s[2]) > 1 for s in subterms(b0))
         delim = any(n in ("(", ")") or n.startswith('"') for (n, _) in all_symbols(b0))
         needs_quote = any(not all(c in smtref.SIMPLE for c in n) for (n, _) in all_symbols(b0))
+        parsed = []
         for dag in (True, False):
             case = {"bp": bp, "cards": cards, "daggify": dag}
             try:
@@ -112,6 +113,7 @@ def check_roundtrip(run, bp, g, cards):
                          "pySMT cannot parse its own output: %s: %s\n formula=%s\n text=%s" % (
                              type(e).__name__, str(e)[:200], show(b0), text[:600]))
                 continue
+            parsed.append((text, g2, case))
             if g2 is f:
                 continue
             if has_av and collapse_stores(pys.decode(g2)) == collapse_stores(b0):
@@ -120,6 +122,22 @@ def check_roundtrip(run, bp, g, cards):
             run.fail({"subcheck": "roundtrip:not-identical", "printer": "dag" if dag else "tree",
                       "class": "delimiter-name" if delim else "array-value" if has_av else "plain"}, case,
                      "parse(print(f)) is not f\n formula=%s\n parsed =%s\n text=%s" % (show(b0), show(pys.decode(g2)), text[:600]))
+
+
+    # the same text read by a parser that is given the environment explicitly while another environment is the
+    # current one: "in the same environment" must not depend on which environment is current
+    for text, g2, case in parsed:
+        try:
+            g3 = SmtLibParser(environment=env).get_script(StringIO(text)).get_last_formula()
+        except Exception as e:
+            run.fail({"subcheck": "roundtrip:explicit-environment", "exc": type(e).__name__}, case,
+                     "parser given the environment explicitly raised %s: %s\n text=%s" % (type(e).__name__, str(e)[:200], text[:600]))
+            continue
+        run.cls("roundtrip:explicit-environment")
+        if g3 is not g2:
+            run.fail({"subcheck": "roundtrip:explicit-environment"}, case,
+                     "SmtLibParser(environment=env), used while env is not the current environment, returns another "
+                     "object than the same parser inside `with env:`\n parsed=%s\n text=%s" % (g3, text[:600]))
 
 
 # ---------------------------------------------------------------- (b) script re-serialisation
@@ -177,6 +195,12 @@ def gen_command_script(rnd):
                 s0 = rnd.choice(cands)
                 params = sorted((p for p in reffv(s0) if not is_fun(p[1])), key=repr)[:2]
                 fname = rnd.choice(["g", "def 1", "f!x", "h"]) + str(len(body))
+                if rnd.random() < 0.3:
+                    # a name the DAG printer also uses for its let variables
+                    cand = ".def_%d" % rnd.randrange(3)
+                    if cand not in ns and cand not in m.values() and ("(define-fun %s " % cand) not in " ".join(body):
+                        fname = cand
+                        tags.add("define-fun-named-like-let")
                 body.append("(define-fun %s (%s) %s %s)" % (
                     quote(fname), " ".join("(%s %s)" % (w.name(n), sort_text(t)) for (n, t) in params),
                     sort_text(reftype(s0)), w.term(s0)))
